@@ -2,7 +2,7 @@
 // One session per line on stdin:
 //   (id forth64|forth32 (src B...) (inputs (NAME (B...))...) (settings STACK RECURSION OUT_INITIAL OUT_RESIZE_TENTHS)
 //       (segs SEG...))
-//   SEG ::= run | begin | reset | step | (steps K) | resume | (call NAME)
+//   SEG ::= run | begin | reset | step | (steps K) | resume | (call NAME) | (stepall K) | (finish K)
 // Output:
 //   (id ok (stack V...) (vars (NAME V)...) (inpos (NAME P|none)...) (outs (NAME DTYPE (V...))|(NAME none) ...)
 //          (err E) (ready R) (done D) (rets E...) (decomp B...))
@@ -97,6 +97,17 @@ static std::string session(const Sx& cs) {
     else if (s.head() == "steps") {
       int64_t k = to_i64(s[1]);
       for (int64_t j = 0; j < k; j++) ret(vm->step());
+    }
+    else if (s.head() == "stepall" || s.head() == "finish") {
+      // step / resume while the machine is ready, not done and has no error, at most K times
+      int64_t k = to_i64(s[1]);
+      int last = current_error(*vm);
+      for (int64_t j = 0; j < k; j++) {
+        if (!vm->is_ready() || vm->is_done() || last != 0) break;
+        util::ForthError e = (s.head() == "stepall") ? vm->step() : vm->resume();
+        ret(e);
+        last = (int)e;
+      }
     }
     else if (s.head() == "call") ret(vm->call(s[1].a));
     else throw std::logic_error("unknown segment " + s.str());
